@@ -15,7 +15,9 @@ Go function → Lean definition
 * `types/hashtype.go` `Hash.valueIndex` → `idxOf` (last position of a key), `mergeEntries` → `mergeEntries`,
   `Delete` → `hashDelete?`, `DeleteAll` → `hashDeleteAll?`, `Add`/`AddAll` → `merge` of a singleton / of a hash,
   `Map`, `MapValues`, `Select`, `Reject`, `SelectPairs`, `RejectPairs`, `Sort`, `Flatten`, `Unique`, `Keys`, `Values`,
-  `Entries`, `Slice`; `MutableHashValue.Put/PutAll` → `Op.mput`/`mputAll` (a NEW pool entry; the old one is retired)
+  `Entries`, `Slice`; `MutableHashValue.Put/PutAll` → `Op.mput`/`mputAll` (a NEW pool entry; the old one is retired);
+  `MutableHashValue.Delete/DeleteAll/Entries/Unique` (own methods since /repo 1d333d3: never the builder itself, a frozen
+  copy or the Hash method's fresh result) → sites `mutDelete`/`mutDeleteAll`/`mutEntries`/`mutUnique`
 * `types/types.go` `px.ToKey` (after "fix: hash keys of containers delimit their elements …") → `Val.key`: a two-element
   array and a hash entry have the same key, a hash's key does not depend on entry order.  `Equals` is modelled as equality
   of keys (their agreement is property C07's subject).
@@ -275,6 +277,9 @@ inductive NewSite
   | hashAdd0 | hashAdd1 | hashAddAll0 | hashDelete0 | hashDeleteAll1 | hashMap | hashMapValues | hashSelect | hashReject
   | hashSelectPairs | hashRejectPairs | hashMerge | hashSort | hashFlatten0 | hashFlatten1 | hashKeys | hashValues
   | mutPutAll | hashEachSlice | hashAsArray | hashMapEntries | hashAddAll1
+  /-- `MutableHashValue.Delete / DeleteAll / Entries / Unique` (after /repo 1d333d3: a frozen copy, or the fresh result of
+      the Hash method) -/
+  | mutDelete | mutDeleteAll | mutEntries | mutUnique
   deriving Repr, DecidableEq
 
 /-- constructors -/
@@ -300,6 +305,8 @@ def NewSite.key : NewSite → String
   | .hashFlatten1 => "Hash.Flatten/r1" | .hashKeys => "Hash.Keys/r0" | .hashValues => "Hash.Values/r0"
   | .mutPutAll => "MutableHashValue.PutAll/a0" | .hashEachSlice => "Hash.EachSlice/c0" | .hashAsArray => "Hash.AsArray/r0"
   | .hashMapEntries => "Hash.MapEntries/r0" | .hashAddAll1 => "Hash.AddAll/r1"
+  | .mutDelete => "MutableHashValue.Delete/r0" | .mutDeleteAll => "MutableHashValue.DeleteAll/r0"
+  | .mutEntries => "MutableHashValue.Entries/r0" | .mutUnique => "MutableHashValue.Unique/r0"
 
 /-- the method a site belongs to (its in-place-write rows are `<method>/w<n>`) -/
 def NewSite.method : NewSite → String
@@ -314,6 +321,8 @@ def NewSite.method : NewSite → String
   | .hashFlatten1 => "Hash.Flatten" | .hashKeys => "Hash.Keys" | .hashValues => "Hash.Values"
   | .mutPutAll => "MutableHashValue.PutAll" | .hashEachSlice => "Hash.EachSlice" | .hashAsArray => "Hash.AsArray"
   | .hashMapEntries => "Hash.MapEntries" | .hashAddAll1 => "Hash.AddAll"
+  | .mutDelete => "MutableHashValue.Delete" | .mutDeleteAll => "MutableHashValue.DeleteAll"
+  | .mutEntries => "MutableHashValue.Entries" | .mutUnique => "MutableHashValue.Unique"
 
 def CtorSite.key : CtorSite → String
   | .wrapValues => "WrapValues/r0" | .wrapHash => "WrapHash/r0" | .buildArray => "BuildArray/r0"
@@ -439,11 +448,10 @@ def hashSem (look : Look) (r : Nat) (isMut : Bool) (es : List Val) : Op → Out
     | some _ => .mark "!"
     | none => inapplicable
   | .delete _ x =>
-    if isMut then inapplicable else
     match elemVal look x with
     | some v => match idxOf es v.key with
-      | some i => .new .hashDelete0 .hsh r (es.eraseIdx i) false
-      | none => .same .hashDelete1 .hsh r
+      | some i => .new (if isMut then .mutDelete else .hashDelete0) .hsh r (es.eraseIdx i) false
+      | none => if isMut then .new .mutDelete .hsh r es false else .same .hashDelete1 .hsh r
     | none => inapplicable
   | .addAll _ s => match look s with
     | some (.arr, ys) => match pairsOfArray ys with
@@ -452,11 +460,11 @@ def hashSem (look : Look) (r : Nat) (isMut : Bool) (es : List Val) : Op → Out
     | some (_, os) => .new .hashAddAll0 .hsh r (mergeEntries es os) false
     | none => inapplicable
   | .deleteAll _ s =>
-    if isMut then inapplicable else
     match look s with
     | some (_, ks) =>
       let del := ks.filterMap (fun k => idxOf es k.key)
-      if del.isEmpty then .same .hashDeleteAll0 .hsh r else .new .hashDeleteAll1 .hsh r (keepIdx del es 0) false
+      if del.isEmpty then (if isMut then .new .mutDeleteAll .hsh r es false else .same .hashDeleteAll0 .hsh r)
+      else .new (if isMut then .mutDeleteAll else .hashDeleteAll1) .hsh r (keepIdx del es 0) false
     | none => inapplicable
   | .merge _ s => match look s with
     | some (.arr, _) => inapplicable
@@ -473,8 +481,8 @@ def hashSem (look : Look) (r : Nat) (isMut : Bool) (es : List Val) : Op → Out
   | .flatten _ =>
     let els := pairsFlat es
     if els.any Val.isNested then .new .hashFlatten0 .arr r (flatL els) false else .new .hashFlatten1 .arr r els false
-  | .unique _ => if isMut then inapplicable else .same .hashUnique0 .hsh r
-  | .entries _ => if isMut then inapplicable else .same .hashEntries0 .hsh r
+  | .unique _ => if isMut then .new .mutUnique .hsh r es false else .same .hashUnique0 .hsh r
+  | .entries _ => if isMut then .new .mutEntries .hsh r es false else .same .hashEntries0 .hsh r
   | .keys _ => .new .hashKeys .arr r (es.map entKey) false
   | .values _ => .new .hashValues .arr r (es.map entVal) false
   | .mput _ k v =>
